@@ -2,6 +2,7 @@
 
 HARNESSES = {
     'cbl': dict(sources=['src/h_cbl.cpp']),
+    'queue': dict(sources=['src/h_queue.cpp']),
 }
 
 
@@ -15,6 +16,26 @@ def std_stages(harness, quick_cases, thorough_cases, fuzz_runs=0, quick_procs=8,
     thorough.append(dict(engine='rc', harness=harness, procs=16, cases=thorough_cases, max_size=max_size, timeout=5400))
     if fuzz_runs:
         thorough.append(dict(engine='fuzz', harness=harness, procs=8, runs=fuzz_runs, timeout=3600))
+    return dict(stages=quick), dict(stages=thorough)
+
+
+def multi_stages(parts, fuzz=None, enum=None):
+    """parts: list of (harness, quick_cases, thorough_cases[, quick_procs]); one replay stage per harness first."""
+    quick, thorough = [], []
+    for part in parts:
+        h = part[0]
+        quick.append(dict(engine='replay', harness=h))
+        thorough.append(dict(engine='replay', harness=h))
+    if enum:
+        quick.append(dict(engine='enum', harness=enum))
+        thorough.append(dict(engine='enum', harness=enum))
+    for part in parts:
+        h, qc, tc = part[0], part[1], part[2]
+        qp = part[3] if len(part) > 3 else 8
+        quick.append(dict(engine='rc', harness=h, procs=qp, cases=qc, timeout=900))
+        thorough.append(dict(engine='rc', harness=h, procs=16, cases=tc, timeout=5400))
+    for h, runs in (fuzz or []):
+        thorough.append(dict(engine='fuzz', harness=h, procs=8, runs=runs, timeout=3600))
     return dict(stages=quick), dict(stages=thorough)
 
 
@@ -58,7 +79,7 @@ prop('C02', 'exploration',
      COMMON_ASSUME + ['policies: std::mutex, SingleThreading, owner-tracking CheckedMutex (re-lock = deadlock), SpinLock'],
      q, t)
 
-q, t = std_stages('cbl', 2500, 100000)
+q, t = multi_stages([('cbl', 2000, 100000), ('queue', 2000, 100000)])
 prop('C10', 'exploration',
      'cbl multi-object histories (pool of <=4 lists; copy/move construct+assign, swap, destroy, churn, dirty placement storage) with nested scripts; '
      'non-trivial = a transfer op followed by a mutation of a participant',
@@ -73,10 +94,25 @@ prop('C19', 'exploration',
      COMMON_ASSUME + ['the 2^32 additions are replaced by the EVENTPP_VERIF accessor verifSetCounterBeforeMax (forward only)'],
      q, t)
 
-q, t = std_stages('cbl', 2500, 100000)
+q, t = multi_stages([('cbl', 2000, 100000), ('queue', 2000, 100000)])
 prop('C08', 'exploration',
      'ledger oracle over the cbl program classes (every construction/destruction of callbacks and payloads recorded by address; LeakSanitizer confirmation when the heap '
      'does not return to its pre-case size); non-trivial = a callback was removed while an invocation was running, or a list was destroyed non-empty',
+     COMMON_ASSUME, q, t)
+
+q, t = std_stages('queue', 2500, 150000, fuzz_runs=1000000)
+prop('C05', 'exploration',
+     'rapidcheck-generated single-threaded EventQueue histories (<=80 ops): enqueue (lvalue/temporary), process, processOne, processIf, processUntil (scripted predicates, with and without '
+     'arguments), peekEvent, takeEvent(+dispatch), clearEvents, emptyQueue, waitFor(0), DisableQueueNotify scopes, listener changes; listener and predicate scripts enqueue, change listeners and '
+     'issue nested consuming calls; 4 prototypes (by value, const string&, move-only unique_ptr, getEvent policy) x 3 threading policies; lock-step queue model; '
+     'non-trivial = a processIf/processUntil declined an event while a listener enqueued one, a slot was reused, and a take/peek happened between partial processings',
+     COMMON_ASSUME + ['nested consuming calls inside processIf/processUntil are not generated (the statement does not say whether declined events are visible to them)'],
+     q, t)
+
+q, t = std_stages('queue', 2500, 100000)
+prop('C13', 'exploration',
+     'C05 histories on OrderedQueueList queues with 4 comparators (ascending key, descending key, coarse key/2 with ties between distinct keys, comparator on an argument); model keeps pending '
+     'stably sorted by (comparator class, enqueue sequence); non-trivial = a tie between events of different rounds, slot reuse, >=3 events consumed',
      COMMON_ASSUME, q, t)
 
 
